@@ -130,9 +130,10 @@ def build_call(op, rng, H, W):
             spec['kwargs'] = dict(azimuth=float(rng.choice([225, 0, 90, 315, 47.5])), angle_altitude=float(rng.choice([25, 0, 45, 90])))
     elif op == 'mean':
         spec['f'] = focal.mean; spec['arrays'] = [_raster(rng, H, W)[2]]
-        spec['kwargs'] = dict(passes=int(rng.choice([0, 1, 1, 2, 3])))
-        if rng.random() < 0.5:
-            spec['kwargs']['excludes'] = [[np.nan], [0], [np.nan, 0.0], [1.0, 2.0]][int(rng.integers(0, 4))]
+        spec['kwargs'] = dict(passes=int(rng.choice([0, 1, 2, 2, 3])))
+        if rng.random() < 0.6:
+            # excluded-value lists without NaN matter most: then NaN cells (and any NaN padding a backend adds) are averaged like data
+            spec['kwargs']['excludes'] = [[np.nan], [0], [np.nan, 0.0], [1.0, 2.0], [0], [2.0]][int(rng.integers(0, 6))]
     elif op == 'apply':
         spec['f'] = focal.apply; spec['arrays'] = [_raster(rng, H, W)[2]]; spec['kernel'] = _kernel(rng)
         fn = str(rng.choice(['_calc_mean', '_calc_sum', '_calc_max', '_calc_min', '_calc_std', '_calc_range', '_calc_var']))
